@@ -310,10 +310,7 @@ instance (h : Heap) (p : Ptr) (i : Nat) : Decidable (Heap.InB h p i) := by unfol
 example : NTT_NTT_iters_loop1.Safe ⟨1, 0⟩ 0#64 2#64 1#64 1 ⟨#[#[], Array.replicate 4 0#64]⟩ ∧
     ¬ NTT_NTT_iters_loop1.Safe ⟨1, 0⟩ 0#64 2#64 1#64 2 ⟨#[#[], Array.replicate 4 0#64]⟩ := by
   unfold NTT_NTT_iters_loop1.Safe
-  constructor
-  · decide
-  · intro h
-    exact absurd h.2.1 (by decide)
+  constructor <;> decide   -- (the whole conjunction is decided: no dependence on the order of the accesses in the source)
 
 
 /-! ### in-bounds accesses, second round: the constructor itself, `computeR`, size 1, `extendPol`, whole histories -/
